@@ -3,42 +3,70 @@ From Bfe Require Import lib.Val lib.Bytes model.HostTable.
 Import ListNotations.
 Open Scope Z_scope.
 
-(* input : [ entries vips dflt queries ]
-     entries = [[VB host; VB tag; VB product] ...]   vips = [[VB vip; VB product] ...]   dflt = VB product ("" = none)
-     queries = [[VB host; VB vip] ...]   (vip "" = the session has no VIP)
-   output: [[VB product; VB tag; VZ err] ...]  (err 1 = ErrNoProduct) one per query *)
+(* input : [ pre_queries stages ]
+     pre_queries = queries run on a fresh HostTable BEFORE any Update (hostTrie == nil, empty VIP table, no default)
+     stages      = [[entries vips dflt queries] ...]  applied to the SAME HostTable object in order: Update(stage tables),
+                   then the stage's queries (act -> reload -> act): each stage must be answered from its own tables only
+       entries = [[VB host; VB tag; VB product] ...]   vips = [[VB vip; VB product] ...]   dflt = VB product ("" = none)
+       queries = [[VB host; VB vip] ...]   (vip "" = the session has no VIP)
+   output: [ pre_results [stage_results ...] ], one result per query:
+       [VB product; VB tag; VZ err;  VB lp_product; VZ lp_err;  VB vp_product; VZ vp_err]
+       (LookupHostTagAndProduct; LookupProduct(host); LookupProductByVip(vip))   err 1 = ErrNoProduct *)
 Definition dec_entry (v : val) : option host_entry :=
   match v with VL [VB h; VB t; VB p] => Some (h, (t, p)) | _ => None end.
 Definition dec_pair (v : val) : option (bytes * bytes) :=
   match v with VL [VB a; VB b] => Some (a, b) | _ => None end.
 Definition dec_list {A} (f : val -> option A) (v : val) : option (list A) :=
   match v with VL l => all_some (map f l) | _ => None end.
-Definition enc_presult (r : presult) : val :=
-  match r with
-  | POk tag prod => VL [VB prod; VB tag; VZ 0]
-  | PErrNoProduct => VL [VB []; VB []; VZ 1]
-  end.
 Definition vip_of (b : bytes) : option bytes := match b with [] => None | _ => Some b end.
 
-Definition with_C10 (f : list host_entry -> list (bytes * bytes) -> bytes -> bytes -> option bytes -> presult)
-           (i : val) : val :=
-  match i with
+Record stage := mkStage { s_tbl : list host_entry; s_vips : list (bytes * bytes); s_dflt : bytes;
+                          s_queries : list (bytes * bytes) }.
+Definition dec_stage (v : val) : option stage :=
+  match v with
   | VL [es; vs; VB dflt; qs] =>
     match dec_list dec_entry es, dec_list dec_pair vs, dec_list dec_pair qs with
-    | Some tbl, Some vips, Some queries =>
-      VL (map (fun q => enc_presult (f tbl vips dflt (fst q) (vip_of (snd q)))) queries)
-    | _, _, _ => VErr 0
+    | Some tbl, Some vips, Some queries => Some (mkStage tbl vips dflt queries)
+    | _, _, _ => None
     end
-  | _ => VErr 0
+  | _ => None
+  end.
+Definition dec_C10 (i : val) : option (list (bytes * bytes) * list stage) :=
+  match i with
+  | VL [pq; ss] =>
+    match dec_list dec_pair pq, dec_list dec_stage ss with
+    | Some pre, Some stages => Some (pre, stages)
+    | _, _ => None
+    end
+  | _ => None
   end.
 
-Definition run_C10 (i : val) : val := with_C10 lookup_product i.
-Definition agree_C10 (i o : val) : bool := val_eqb (run_C10 i) o.
-(* the property: the observation equals the declarative priority chain (exact host, longest wildcard,
-   VIP, default, error) computed on natural host labels, without the trie and without string reversal *)
-Definition prop_C10 (i o : val) : bool :=
-  match with_C10 spec_product i with
-  | VL [VZ (-1); VZ 0] => false
-  | s => val_eqb s o
+(* the three exported lookups, parameterised by the host-table part so that the same encoder serves model and spec *)
+Section Enc.
+Variable full : list host_entry -> list (bytes * bytes) -> bytes -> bytes -> option bytes -> presult.
+Variable byhost : list host_entry -> bytes -> option route.
+Definition enc_query (tbl : list host_entry) (vips : list (bytes * bytes)) (dflt : bytes) (q : bytes * bytes) : val :=
+  let '(p, t, e) := match full tbl vips dflt (fst q) (vip_of (snd q)) with
+                    | POk tag prod => (prod, tag, 0)
+                    | PErrNoProduct => ([], [], 1)
+                    end in
+  let '(lp, le) := match byhost tbl (fst q) with Some (_, prod) => (prod, 0) | None => ([], 1) end in
+  let '(vp, ve) := match assoc (snd q) vips with Some prod => (prod, 0) | None => ([], 1) end in
+  VL [VB p; VB t; VZ e; VB lp; VZ le; VB vp; VZ ve].
+Definition enc_stage (s : stage) : val := VL (map (enc_query (s_tbl s) (s_vips s) (s_dflt s)) (s_queries s)).
+Definition with_C10 (i : val) : val :=
+  match dec_C10 i with
+  | Some (pre, stages) => VL [VL (map (enc_query [] [] []) pre); VL (map enc_stage stages)]
+  | None => VErr 0
   end.
+End Enc.
+
+Definition wf_C10 (i : val) : bool := match dec_C10 i with Some _ => true | None => false end.
+Definition run_C10 (i : val) : val := with_C10 lookup_product find_host_route i.
+Definition agree_C10 (i o : val) : bool := val_eqb (run_C10 i) o.
+(* the property: every observation equals the declarative priority chain (exact host, longest wildcard, VIP, default,
+   error) computed on natural host labels from the tables of the CURRENT stage, without the trie and without string
+   reversal; LookupProduct is its host-table part, LookupProductByVip its VIP part *)
+Definition prop_C10 (i o : val) : bool :=
+  wf_C10 i && val_eqb (with_C10 spec_product spec_host i) o.
 Definition kf_C10 (i : val) : Z := 0.
